@@ -1803,6 +1803,358 @@ def h_get_disjoint(ctx, p):
 
 
 # ------------------------------------------------------------------------------ thin delegations
+# ------------------------------------------------------------------------------ merged set-algebra iterators (C08)
+# Union and SymmetricDifference present several PARTS as one sequence.  A part is a cursor over one operand:
+# 'plain' (all of it) or 'filter' (a Difference/Intersection: elements that miss/hit in the other operand).
+# What the parts are is decided at the constructor (h_make_algebra); here: every method treats each part the
+# way that part's own iterator would, loses no element and invents none -- however the struct is laid out
+# (core's Chain, two named fields, ...).
+class _PS:
+    def __init__(self, E, st):
+        self.E, self.st = E, st
+
+
+def _part_mid(q):
+    return q[1] if q[0] == 'plain' else q[2]
+
+
+def _part_cur(q):
+    return (q[2], q[3]) if q[0] == 'plain' else (q[3], q[4])
+
+
+def _parts_by_mid(p, v):
+    P = _describe_parts(p, v) if v is not None else []
+    m = {}
+    for q in P:
+        k = _part_mid(q)
+        if k is None or k in m:
+            return P, None
+        m[k] = q
+    return P, m
+
+
+def _roles(E):
+    """container id -> part of the root's receiver, as it was at entry"""
+    c = getattr(E, '_roles_cache', None)
+    if c is not None and c[0] == E.root:
+        return c[1]
+    roles = {}
+    ent = getattr(E, 'root_entry', None)
+    if ent is not None and ent[0]:
+        args, st0 = ent
+        v = args[0]
+        d = 0
+        while v is not None and v[0] == 'ref' and d < 4:
+            try:
+                v = E.load(st0, v[2], quiet=True)
+            except Exception:
+                v = None
+            d += 1
+        _, m = _parts_by_mid(_PS(E, st0), v)
+        roles = m or {}
+    E._roles_cache = (E.root, roles)
+    return roles
+
+
+def _yielded_slot(item, body):
+    """(container, index) of the element a yielded reference points to"""
+    if item is None:
+        return None
+    if item[0] == 'ref' and item[2][0] == 'pair' and tuple(item[2][3]) == (0,):
+        return item[2][1], item[2][2]
+    t = vtag(item)
+    if t is None and item[0] == 'ref' and item[2][0] == 'opq':
+        t = item[2][1]
+    if isinstance(t, tuple) and len(t) >= 4 and t[0] == 'stored' and t[3] == 0:
+        return t[1], t[2]
+    return None
+
+
+def h_merge_next(ctx, p):
+    nm = ctx.body.name
+    z = p.z
+    P0, m0 = _parts_by_mid(p, p.self0)
+    P1, m1 = _parts_by_mid(p, final_self(p))
+    if not m0 or m1 is None:
+        ctx.req('FLOW', False, nm, 'cannot identify the parts (cursor over an operand, plain or filtered) of the iterator', p)
+        return
+    quiet = not [e for e in p.events if e[0] in ('read', 'write', 'len', 'store')]
+    ctx.req('OUT', quiet, nm, 'the operands must not be modified', p)
+    ends = {e[1] for e in p.events if e[0] == 'cursor-end'}
+
+    def exhausted(mid):
+        q = m1.get(mid)
+        if q is None:       # the part is gone (e.g. a fused half of a Chain): only after it ended
+            f0, b0 = _part_cur(m0[mid])
+            return mid in ends or z.entails_le(b0, f0)
+        f1, b1 = _part_cur(q)
+        return z.entails_le(b1, f1)
+
+    if is_none(p.val):
+        ctx.classes['none'] += 1
+        ctx.req('OUT', all(exhausted(m) for m in m0), nm + ':none',
+                'None may be returned only when every part is exhausted', p)
+        return
+    ctx.classes['some'] += 1
+    ys = _yielded_slot(some_of(p.val), ctx.body)
+    ok = ys is not None and ys[0] in m0
+    ctx.req('FLOW', ok, nm + ':some', 'the yielded reference must point to an element of one of the operands themselves', p)
+    if not ok:
+        return
+    X, i = ys
+    q0, q1 = m0[X], m1.get(X)
+    f0, b0 = _part_cur(q0)
+    ok = q1 is not None
+    if ok:
+        f1, b1 = _part_cur(q1)
+        ok = z.entails_eq(f1, i, 1) and z.entails_eq(b1, b0) and z.entails_le(f0, i)
+    ctx.req('ONCE', ok, nm + ':some',
+            'the cursor of the part must stand right behind the yielded element (no element is yielded twice or lost)', p)
+    for m in m0:
+        if m == X:
+            continue
+        r1 = m1.get(m)
+        same = r1 is not None and z.entails_eq(_part_cur(r1)[0], _part_cur(m0[m])[0]) \
+            and z.entails_eq(_part_cur(r1)[1], _part_cur(m0[m])[1])
+        ctx.req('ONCE', same or exhausted(m), nm + ':some',
+                'while one part yields, every other part must keep its position (or be exhausted)', p)
+    if q0[0] == 'filter':
+        pol = 'inter' if q0[1] == INTER else 'diff'
+        B = q0[5]
+        pr = _probe(p.E, p.st, _outer_tail(p.events))
+        if pr is None or pr[0] != B:
+            ctx.req('POL', False, nm + ':some', 'the yielded element of a filtered part was not looked up in the other operand', p)
+            return
+        _, kind, hh, probe = pr
+        mine = (probe is None and kind == 'miss') or (_is_key_of(probe, X) and z.entails_eq(probe[2], i)) or (
+            isinstance(probe, tuple) and len(probe) >= 4 and probe[0] == 'stored' and probe[1] == X and probe[3] == 0
+            and z.entails_eq(probe[2], i))
+        want = 'miss' if pol == 'diff' else 'hit'
+        ctx.req('POL', kind == want and mine, nm + ':some',
+                'an element of a filtered part may be yielded only if it was looked up in the other operand and %s'
+                % ('NOT found' if pol == 'diff' else 'found'), p)
+
+
+def _mentions_elem(z, tag, mid, idx):
+    """does the provenance tag refer to element idx of container mid (reference to it, or the stored value)?"""
+    return mentions_z(z, tag, ('slot', mid, idx, (0,))) or mentions_z(z, tag, ('pair', mid, idx, (0,))) \
+        or mentions_prefix_z(z, tag, ('stored', mid, idx, 0))
+
+
+def _mentions_any_elem(tag, mid):
+    if isinstance(tag, tuple):
+        if len(tag) == 4 and tag[0] in ('slot', 'pair', 'stored') and tag[1] == mid:
+            return True
+        return any(_mentions_any_elem(x, mid) for x in tag if isinstance(x, tuple))
+    return False
+
+
+def merge_iteration(mode):
+    """per loop iteration of next / fold / count of a merged iterator: the part whose cursor advanced decides
+    what must happen to the element (plain: always kept; filtered: kept iff the lookup says so)"""
+    def mk(props):
+        def hook(E, body, key, st, seg, depth=0):
+            roles = _roles(E)
+            advs = [e for e in seg if e[0] == 'adv' and e[1] in roles]
+            if not roles or not advs:
+                return
+            lookup = any(e[0] in ('slice', 'loop') for e in seg)
+            keyeq = any(e[0] == 'user' and e[1].endswith('PartialEq::eq') for e in seg)
+            if keyeq and not lookup:
+                return          # one step of a lookup scan over an operand, not an iteration of the operation
+            mid, idx = advs[0][1], advs[0][2]
+            role = roles[mid]
+            it = Iteration(E, st, seg)
+            nm = body.name
+            calls = [e for e in seg if e[0] == 'user' and (e[1].endswith('::call_mut') or e[1].endswith('::call_once')
+                                                          or e[1].endswith('::call') or e[1] == 'call')]
+            consumed = isinstance(key, tuple) and key and key[0] in ('fold', 'count')   # the std driver's own loop
+            if role[0] == 'plain':
+                if mode == 'next':
+                    E.iter_classes['skipped'] += 1
+                    it_req(E, props, 'POL', False, nm + ':skip',
+                           'an element of the unfiltered operand was passed over without being yielded', it)
+                elif mode == 'fold':
+                    E.iter_classes['folded'] += 1
+                    ok = len(calls) == 1 and _mentions_elem(st.zone, calls[0][2], mid, idx)
+                    it_req(E, props, 'POL', ok, nm + ':fold',
+                           'fold must pass every element of the unfiltered operand to the closure exactly once', it)
+                else:
+                    E.iter_classes['counted'] += 1
+                    it_req(E, props, 'POL', consumed, nm + ':count',
+                           'every element of the unfiltered operand must be counted', it)
+                return
+            pol = 'inter' if role[1] == INTER else 'diff'
+            pr = _probe(E, st, seg)
+            if pr is None or pr[0] != role[5] or pr[1] == 'unknown':
+                it_req(E, props, 'POL', False, nm + ':' + mode,
+                       'the element of a filtered part was not conclusively looked up in the other operand '
+                       '(lookup seen: %r)' % (pr,), it)
+                return
+            X, kind, hh, probe = pr
+            keep = (kind == 'miss') if pol == 'diff' else (kind == 'hit')
+            if mode == 'next':
+                E.iter_classes['skipped'] += 1
+                it_req(E, props, 'POL', not keep, nm + ':skip',
+                       'an element of a filtered part may be passed over only if next() of that part would skip it', it)
+            elif mode == 'fold':
+                if keep:
+                    E.iter_classes['folded'] += 1
+                    # (which element: the one that was looked up -- index terms logged before an inner loop are
+                    #  no longer known to the zone; an empty other operand leaves no probe at all)
+                    if isinstance(probe, tuple) and len(probe) == 4 and probe[0] in ('slot', 'stored') and probe[1] == mid:
+                        ok = len(calls) == 1 and _mentions_elem(st.zone, calls[0][2], mid, probe[2])
+                    else:
+                        ok = len(calls) == 1 and _mentions_any_elem(calls[0][2], mid)
+                    it_req(E, props, 'POL', ok, nm + ':fold',
+                           'fold must pass exactly the elements that next() would yield to the closure, once each', it)
+                else:
+                    E.iter_classes['dropped'] += 1
+                    it_req(E, props, 'POL', not calls, nm + ':fold',
+                           'fold must not pass an element to the closure that next() would skip', it)
+            else:
+                E.iter_classes['counted' if keep else 'skipped'] += 1
+                it_req(E, props, 'POL', keep == consumed, nm + ':count',
+                       'count must count exactly the elements that next() would yield', it)
+        return hook
+    return mk
+
+
+def h_merge_hint(ctx, p):
+    nm = ctx.body.name
+    from .interp import to_aff, aff_add, aff_norm
+    import itertools
+    z = p.z
+    P0, m0 = _parts_by_mid(p, p.self0)
+    ctx.classes['hint'] += 1
+    if not m0:
+        ctx.req('HINT', False, nm, 'cannot identify the parts of the iterator', p)
+        return
+    v = p.val
+    if not (v[0] == 'tuple' and len(v[1]) == 2):
+        ctx.req('HINT', False, nm, 'size_hint must return a pair', p)
+        return
+    lower, upper = v[1]
+
+    def same(x, y):
+        ax, ay = to_aff(x), to_aff(y)
+        if ax is None or ay is None:
+            return False
+        d = aff_add(ax, ay, -1)
+        return not d[0] and d[1] == 0
+
+    def rem(q):
+        f, b = _part_cur(q)
+        return ('slen', f, b)
+
+    def total(qs):
+        acc = ((), 0)
+        for q in qs:
+            acc = aff_add(acc, to_aff(rem(q)), 1)
+        return aff_norm(acc)
+
+    def part_lower_ok(x, q):
+        if x == ('int', 0):
+            return True
+        if q[0] == 'plain':
+            return same(x, rem(q))
+        if q[1] == INTER:
+            return False
+        olen = p.st.maps[q[5]].len0
+        d = aff_norm(aff_add(to_aff(rem(q)), to_aff(('int', olen)), -1))
+        return (x[0] == 'satsub' and same(x[1], d)) or (same(x, d) and z.entails_lt(olen, _part_cur(q)[1]))
+
+    def aff_candidates(q):
+        """affine expressions that are valid lower bounds for part q on this path"""
+        out = [((), 0)]
+        if q[0] == 'plain':
+            out.append(to_aff(rem(q)))
+        elif q[1] != INTER:
+            olen = p.st.maps[q[5]].len0
+            if z.entails_lt(olen, _part_cur(q)[1]):
+                out.append(aff_add(to_aff(rem(q)), to_aff(('int', olen)), -1))
+        return out
+
+    def lower_ok(x):
+        if x == ('int', 0):
+            return True
+        elems = list(x[1]) if x[0] == 'sum' else [x]
+        opaque = [e for e in elems if to_aff(e) is None]
+        affs = [e for e in elems if to_aff(e) is not None]
+        A = ((), 0)
+        for e in affs:
+            A = aff_add(A, to_aff(e), 1)
+        if len(opaque) > len(P0):
+            return False
+        for qs in itertools.permutations(P0, len(opaque)):
+            if not all(part_lower_ok(e, q) for e, q in zip(opaque, qs)):
+                continue
+            rest = [q for q in P0 if q not in qs]
+            # the affine remainder must be a sum of valid affine lower bounds of distinct remaining parts
+            for choice in itertools.product(*[aff_candidates(q) for q in rest]):
+                acc = ((), 0)
+                for c in choice:
+                    acc = aff_add(acc, c, 1)
+                d = aff_add(A, acc, -1)
+                if not d[0] and d[1] == 0:
+                    return True
+        return False
+
+    def upper_ok(x):
+        if same(x, total(P0)):
+            return True
+        elems = list(x[1]) if x[0] == 'sum' else [x]
+        if len(elems) == len(P0):
+            for qs in itertools.permutations(P0):
+                if all(same(e, rem(q)) for e, q in zip(elems, qs)):
+                    return True
+        return False
+
+    ctx.req('HINT', lower_ok(lower), nm + ':lower',
+            'the lower bound may not exceed the sum of what the parts are certain to yield '
+            '(plain: remaining; difference: max(0, remaining - other.len()))', p)
+    up = some_of(upper)
+    ctx.req('HINT', is_none(upper) or (up is not None and upper_ok(up)), nm + ':upper',
+            'the upper bound may not be below the sum of the remaining elements of all parts', p)
+    ctx.req('OUT', not [e for e in p.events if e[0] in ('read', 'write', 'len', 'store')], nm, 'must not change anything', p)
+
+
+def h_merge_count(ctx, p):
+    nm = ctx.body.name
+    ctx.classes['hint'] += 1
+    roles = _roles(p.E)
+    cnt = [e for e in p.events if e[0] == 'counted']
+    v = p.val
+    leaves = list(v[1]) if v[0] == 'sum' else [v]
+    used = []
+    ok = bool(roles)
+    for x in leaves:
+        hit = [e for e in cnt if x[0] == 'int' and p.z.entails_eq(x[1], e[2])]
+        if not hit:
+            ok = False
+            break
+        used.extend(hit[0][1])
+    ctx.req('HINT', ok and sorted(used) == sorted(roles), nm,
+            'count must be the number of items the parts yield: the count of the whole iterator, or the sum of the '
+            'counts of all its parts, each part once', p)
+
+
+def h_merge_fold(ctx, p):
+    nm = ctx.body.name
+    ctx.classes['folded-all'] += 1
+    roles = _roles(p.E)
+    ends = {e[1] for e in p.events if e[0] == 'cursor-end'}
+    z = p.z
+    ok = bool(roles)
+    for m, q in roles.items():
+        f0, b0 = _part_cur(q)
+        if not (m in ends or z.entails_le(b0, f0)):
+            ok = False
+    ctx.req('POL', ok, nm, 'fold may return only after every part was driven to its end', p)
+    ctx.req('OUT', not [e for e in p.events if e[0] in ('read', 'write', 'len', 'store')], nm,
+            'the operands must not be modified', p)
+
+
 def h_delegate(ctx, p):
     """the method forwards to the same-named method of its inner (core) iterator and returns the result:
     exactly one call in the body, to that method, whose result is the return value"""
@@ -1994,6 +2346,11 @@ ITER_HOOKS = {
     (DIFF, 'Iterator', 'fold'): ({'C08'}, filter_iteration('diff', True), {'folded', 'dropped'}),
     (DIFFREF, 'Iterator', 'fold'): ({'C08'}, filter_iteration('diff', True), {'folded', 'dropped'}),
     (INTER, 'Iterator', 'fold'): ({'C08'}, filter_iteration('inter', True), {'folded', 'dropped'}),
+    (UNION, 'Iterator', 'next'): ({'C08'}, merge_iteration('next'), {'skipped'}),
+    (SYMDIFF, 'Iterator', 'next'): ({'C08'}, merge_iteration('next'), {'skipped'}),
+    (UNION, 'Iterator', 'fold'): ({'C08'}, merge_iteration('fold'), {'folded', 'dropped'}),
+    (SYMDIFF, 'Iterator', 'fold'): ({'C08'}, merge_iteration('fold'), {'folded', 'dropped'}),
+    (UNION, 'Iterator', 'count'): ({'C08'}, merge_iteration('count'), {'counted', 'skipped'}),
     (MAP, 'Serialize', 'serialize'): ({'C20'}, serialize_iteration('serialize_entry', 2), {'entry'}),
     (SET, 'Serialize', 'serialize'): ({'C20'}, serialize_iteration('serialize_element', 1), {'entry'}),
     ('serialization::Vi', 'Visitor', 'visit_map'): ({'C20'}, lambda pr: bulk_iteration(pr, _pulled_access('next_entry'), _item_of_access), {'item', 'hit', 'append'}),
@@ -2129,7 +2486,7 @@ def required_classes(key):
     if key in CLASSES:
         return CLASSES[key]
     if key[0] in (UNION, SYMDIFF) and key in HANDLERS:
-        return {'delegated'}
+        return {'next': {'none', 'some'}, 'size_hint': {'hint'}, 'count': {'hint'}, 'fold': {'folded-all'}}[key[2]]
     if key[0] in (DIFF, DIFFREF, INTER) and key[2] == 'size_hint':
         return {'hint'}
     if key in INSERTIONS:
@@ -2288,13 +2645,13 @@ HANDLERS.update({
     (SET, 'Deserialize', 'deserialize'): ({'C20'}, h_deserialize('deserialize_seq')),
     (MAP, None, 'get_disjoint_mut'): ({'C13'}, h_get_disjoint),
     (MAP, None, 'get_disjoint_unchecked_mut'): ({'C13', 'C18'}, h_unchecked_disjoint),
-    (UNION, 'Iterator', 'next'): ({'C08'}, h_delegate),
-    (UNION, 'Iterator', 'size_hint'): ({'C08'}, h_delegate),
-    (UNION, 'Iterator', 'count'): ({'C08'}, h_delegate),
-    (UNION, 'Iterator', 'fold'): ({'C08'}, h_delegate),
-    (SYMDIFF, 'Iterator', 'next'): ({'C08'}, h_delegate),
-    (SYMDIFF, 'Iterator', 'size_hint'): ({'C08'}, h_delegate),
-    (SYMDIFF, 'Iterator', 'fold'): ({'C08'}, h_delegate),
+    (UNION, 'Iterator', 'next'): ({'C08'}, h_merge_next),
+    (UNION, 'Iterator', 'size_hint'): ({'C08'}, h_merge_hint),
+    (UNION, 'Iterator', 'count'): ({'C08'}, h_merge_count),
+    (UNION, 'Iterator', 'fold'): ({'C08'}, h_merge_fold),
+    (SYMDIFF, 'Iterator', 'next'): ({'C08'}, h_merge_next),
+    (SYMDIFF, 'Iterator', 'size_hint'): ({'C08'}, h_merge_hint),
+    (SYMDIFF, 'Iterator', 'fold'): ({'C08'}, h_merge_fold),
     (MAP, None, 'len'): ({'C05', 'C01'}, h_len),
     (SET, None, 'len'): ({'C05', 'C07'}, h_len),
     (MAP, None, 'is_empty'): ({'C05'}, h_is_empty),
